@@ -5,6 +5,7 @@ import (
 	"fmt"
 	"testing"
 	"time"
+	"verif/harness/internal/fault"
 
 	"github.com/PowerDNS/lightningstream/config"
 	"github.com/PowerDNS/lightningstream/snapshot"
@@ -58,6 +59,7 @@ func checkC12Wired(c C12WCase, o *vcore.Obs) error {
 	}
 	nWrites := 0
 	deletedNewest, deletedOld := 0, 0
+	failedUploads := 0
 	logPos := 0
 	newest := func(inst string) string { return f.NewestBlobOf(inst) }
 	for oi, op := range c.Ops {
@@ -80,6 +82,34 @@ func checkC12Wired(c C12WCase, o *vcore.Obs) error {
 			for x, t := range merged[i] {
 				committed[i][x] = t
 			}
+		case "upload-fails":
+			// every attempt of the upload fails: nothing is stored, so nothing counts as "uploaded afterwards"
+			in := f.Insts[i]
+			if len(in.Seen) == 0 && !in.Dirty {
+				continue
+			}
+			if !c.Native && in.Dirty {
+				if err := f.Capture(i); err != nil {
+					return fmt.Errorf("%s: %w", step, err)
+				}
+			}
+			var plan []string
+			for k := 0; k < in.Conf.StorageRetryCount+1; k++ {
+				plan = append(plan, fault.Fail)
+			}
+			in.H.SetPlan("store", plan)
+			n0 := f.B.LogLen()
+			_, err := in.S.SendOnce(f.Ctx, in.Env.Env)
+			in.H.ClearPlans()
+			for _, lop := range f.B.Log()[n0:] {
+				if lop.Kind == "store" && lop.Applied {
+					return fmt.Errorf("%s: harness: a store got through", step)
+				}
+			}
+			if err == nil {
+				return fmt.Errorf("%s: SendOnce reported success although every one of its %d Store attempts failed and nothing was stored", step, in.Conf.StorageRetryCount)
+			}
+			failedUploads++
 		case "merge":
 			j := op.From % c.N
 			if j == i {
@@ -143,6 +173,7 @@ func checkC12Wired(c C12WCase, o *vcore.Obs) error {
 	o.ClassIf(deletedOld > 0, "superseded-snapshot-deleted")
 	o.ClassIf(c.Native, "native")
 	o.ClassIf(!c.Native, "shadow")
+	o.ClassIf(failedUploads > 0, "upload-that-failed-on-every-attempt")
 	return nil
 }
 
@@ -150,7 +181,7 @@ func genC12Wired(t *rapid.T) C12WCase {
 	c := C12WCase{Native: rapid.Bool().Draw(t, "native"), N: rapid.IntRange(2, 3).Draw(t, "n")}
 	n := rapid.IntRange(4, 24).Draw(t, "nops")
 	for i := 0; i < n; i++ {
-		op := C12WOp{Kind: rapid.SampledFrom([]string{"write", "write", "upload", "upload", "merge", "merge", "clean", "clean"}).Draw(t, "kind"), Inst: rapid.IntRange(0, c.N-1).Draw(t, "inst")}
+		op := C12WOp{Kind: rapid.SampledFrom([]string{"write", "write", "upload", "upload", "upload-fails", "merge", "merge", "clean", "clean"}).Draw(t, "kind"), Inst: rapid.IntRange(0, c.N-1).Draw(t, "inst")}
 		switch op.Kind {
 		case "merge":
 			op.From = rapid.IntRange(0, c.N-1).Draw(t, "from")
@@ -168,7 +199,12 @@ func genC12Wired(t *rapid.T) C12WCase {
 		if rapid.IntRange(0, 3).Draw(t, "tmerge") > 0 {
 			c.Ops = append(c.Ops, C12WOp{Kind: "merge", Inst: i, From: j})
 		}
-		if rapid.IntRange(0, 3).Draw(t, "tupload") > 0 {
+		switch rapid.IntRange(0, 4).Draw(t, "tupload") {
+		case 0:
+		case 1:
+			// the upload after the merge fails on every attempt: the merge is not "followed by an upload"
+			c.Ops = append(c.Ops, C12WOp{Kind: "write", Inst: i}, C12WOp{Kind: "upload-fails", Inst: i})
+		default:
 			c.Ops = append(c.Ops, C12WOp{Kind: "write", Inst: i}, C12WOp{Kind: "upload", Inst: i})
 		}
 		c.Ops = append(c.Ops, C12WOp{Kind: "clean", Inst: i, Adv: 3}, C12WOp{Kind: "clean", Inst: i, Adv: 2}, C12WOp{Kind: "clean", Inst: i, Adv: 4})
@@ -178,6 +214,6 @@ func genC12Wired(t *rapid.T) C12WCase {
 
 func TestC12Wired(t *testing.T) {
 	vcore.Run(t, vcore.Config{Property: "C12",
-		Rule: "rapid histories over 2-3 real instances (direct driver): application writes, SendOnce, LoadOnce of a peer's newest snapshot, cleaner runs of any instance at a virtual clock that advances by 0 s .. 60 h (keep interval 10 min, stale interval 24 h); the cleaner learns what is merged-and-uploaded from the syncer itself; every Delete of an instance's NEWEST snapshot must be justified by the C12 rule (silent > stale interval, merged by the cleaner's instance and followed by an upload of its own; never for the cleaner's own instance), every deleted name is a snapshot of this database; non-trivial = the cleaner deleted something"},
+		Rule: "rapid histories over 2-3 real instances (direct driver): application writes, SendOnce, SendOnce whose Store fails on every attempt (must report an error; nothing counts as uploaded), LoadOnce of a peer's newest snapshot, cleaner runs of any instance at a virtual clock that advances by 0 s .. 60 h (keep interval 10 min, stale interval 24 h); the cleaner learns what is merged-and-uploaded from the syncer itself; every Delete of an instance's NEWEST snapshot must be justified by the C12 rule (silent > stale interval, merged by the cleaner's instance and followed by an upload of its own; never for the cleaner's own instance), every deleted name is a snapshot of this database; non-trivial = the cleaner deleted something"},
 		genC12Wired, checkC12Wired)
 }
